@@ -6,5 +6,7 @@ mkdir -p work evidence replays
 if [ ! -d .deps/jsonschema ]; then
   /venv/bin/pip install --no-index --find-links /opt/veriftools/wheels --target .deps jsonschema >/dev/null 2>&1 || true
 fi
+# C20: regenerate the shared-write table (Generated/ is git-ignored) before the first build
+[ -f extract/shared_writes.py ] && /venv/bin/python extract/shared_writes.py >/dev/null
 cd lean
 lake build driver TypedpyModel 2>&1 | tail -5
